@@ -1,9 +1,12 @@
 package fx
 
 import (
+	"container/list"
 	"sync"
+	"sync/atomic"
 
 	"github.com/pion/interceptor"
+	"github.com/pion/rtcp"
 	"github.com/pion/rtp"
 )
 
@@ -166,4 +169,352 @@ func (g *BadX2) BindRemoteStream(_ *interceptor.StreamInfo, r interceptor.RTPRea
 		m, err := out.MarshalTo(b)
 		return m, attr, err
 	})
+}
+
+// ---- O4 (c): a maker function kept by a factory builds what it returns ------------------------------------------------------
+
+type o4makerFactory struct{ mk func() (*o4state, error) }
+
+func (f *o4makerFactory) NewInterceptor(_ string) (interceptor.Interceptor, error) {
+	st, err := f.mk()
+	if err != nil {
+		return nil, err
+	}
+	return &o4icpt{state: st}, nil
+}
+
+func newGoodO4maker() *o4makerFactory {
+	return &o4makerFactory{mk: func() (*o4state, error) {
+		return &o4state{seen: map[uint16]bool{}}, nil
+	}}
+}
+
+func newBadO4maker() *o4makerFactory {
+	shared := &o4state{seen: map[uint16]bool{}}
+	return &o4makerFactory{mk: func() (*o4state, error) {
+		return shared, nil
+	}}
+}
+
+// ---- X3: after the upstream read, the returned attributes are the ones to use --------------------------------------------
+
+type x3rec struct {
+	mu  sync.Mutex
+	seq []uint16
+}
+
+func (r *x3rec) note(b []byte, a interceptor.Attributes) {
+	if a == nil {
+		a = make(interceptor.Attributes)
+	}
+	h, err := a.GetRTPHeader(b)
+	if err != nil {
+		return
+	}
+	r.mu.Lock()
+	r.seq = append(r.seq, h.SequenceNumber)
+	r.mu.Unlock()
+}
+
+type GoodX3 struct {
+	interceptor.NoOp
+	rec *x3rec
+}
+
+func (g *GoodX3) BindRemoteStream(_ *interceptor.StreamInfo, r interceptor.RTPReader) interceptor.RTPReader {
+	return interceptor.RTPReaderFunc(func(b []byte, a interceptor.Attributes) (int, interceptor.Attributes, error) {
+		n, attr, err := r.Read(b, a)
+		if err != nil {
+			return 0, nil, err
+		}
+		g.rec.note(b[:n], attr)
+		return n, attr, nil
+	})
+}
+
+type BadX3 struct {
+	interceptor.NoOp
+	rec *x3rec
+}
+
+func (g *BadX3) BindRemoteStream(_ *interceptor.StreamInfo, r interceptor.RTPReader) interceptor.RTPReader {
+	return interceptor.RTPReaderFunc(func(b []byte, a interceptor.Attributes) (int, interceptor.Attributes, error) {
+		n, attr, err := r.Read(b, a)
+		if err != nil {
+			return 0, nil, err
+		}
+		g.rec.note(b[:n], a)
+		return n, attr, nil
+	})
+}
+
+// ---- X4: what Bind learns about one stream is not kept in a field of the interceptor ------------------------------------
+
+type GoodX4 struct {
+	interceptor.NoOp
+	hits int
+	mu   sync.Mutex
+}
+
+func (g *GoodX4) BindLocalStream(info *interceptor.StreamInfo, w interceptor.RTPWriter) interceptor.RTPWriter {
+	var extID uint8
+	for _, e := range info.RTPHeaderExtensions {
+		extID = uint8(e.ID)
+	}
+	return interceptor.RTPWriterFunc(func(h *rtp.Header, p []byte, a interceptor.Attributes) (int, error) {
+		if h.GetExtension(extID) != nil {
+			g.mu.Lock()
+			g.hits++
+			g.mu.Unlock()
+		}
+		return w.Write(h, p, a)
+	})
+}
+
+type BadX4 struct {
+	interceptor.NoOp
+	hits  int
+	extID uint8
+	mu    sync.Mutex
+}
+
+func (g *BadX4) BindLocalStream(info *interceptor.StreamInfo, w interceptor.RTPWriter) interceptor.RTPWriter {
+	for _, e := range info.RTPHeaderExtensions {
+		g.mu.Lock()
+		g.extID = uint8(e.ID)
+		g.mu.Unlock()
+	}
+	return interceptor.RTPWriterFunc(func(h *rtp.Header, p []byte, a interceptor.Attributes) (int, error) {
+		g.mu.Lock()
+		if h.GetExtension(g.extID) != nil {
+			g.hits++
+		}
+		g.mu.Unlock()
+		return w.Write(h, p, a)
+	})
+}
+
+// ---- E7: an index over a list has one entry per element --------------------------------------------------------------------
+
+type e7lru struct {
+	order *list.List
+	index map[uint16]*list.Element
+	size  int
+}
+
+func (l *e7lru) evict() {
+	if e := l.order.Back(); e != nil {
+		l.order.Remove(e)
+		delete(l.index, e.Value.(uint16))
+	}
+}
+
+func (l *e7lru) GoodE7add(k uint16) {
+	if e, ok := l.index[k]; ok {
+		l.order.MoveToFront(e)
+		return
+	}
+	l.index[k] = l.order.PushFront(k)
+	if l.order.Len() > l.size {
+		l.evict()
+	}
+}
+
+func (l *e7lru) BadE7add(k uint16) {
+	if _, ok := l.index[k]; !ok && l.order.Len() >= l.size {
+		l.evict()
+	}
+	l.index[k] = l.order.PushFront(k)
+}
+
+// ---- F8: nothing half-parsed is published ----------------------------------------------------------------------------------
+
+type f8cache map[string]any
+
+func (c f8cache) GoodF8header(raw []byte) (*rtp.Header, error) {
+	h := &rtp.Header{}
+	if _, err := h.Unmarshal(raw); err != nil {
+		return nil, err
+	}
+	c["h"] = h
+	return h, nil
+}
+
+func (c f8cache) BadF8header(raw []byte) (*rtp.Header, error) {
+	h := &rtp.Header{}
+	c["h"] = h
+	if _, err := h.Unmarshal(raw); err != nil {
+		return nil, err
+	}
+	return h, nil
+}
+
+// ---- U3: everything that dirties sets the dirty flag ---------------------------------------------------------------------------
+
+type u3table struct {
+	GoodU3streams sync.Map
+	GoodU3dirty   atomic.Bool
+	BadU3streams  sync.Map
+	BadU3dirty    atomic.Bool
+}
+
+func (t *u3table) add(ssrc uint32) {
+	t.GoodU3streams.Store(ssrc, nil)
+	t.GoodU3dirty.Store(true)
+	t.BadU3streams.Store(ssrc, nil)
+	t.BadU3dirty.Store(true)
+}
+
+func (t *u3table) remove(ssrc uint32) {
+	t.GoodU3streams.Delete(ssrc)
+	t.GoodU3dirty.Store(true)
+	t.BadU3streams.Delete(ssrc) // the flag stays down
+}
+
+func (t *u3table) loop(tick <-chan struct{}, emit func([]uint32)) {
+	var good, bad []uint32
+	for range tick {
+		if t.GoodU3dirty.Swap(false) {
+			good = good[:0]
+			t.GoodU3streams.Range(func(k, _ any) bool {
+				good = append(good, k.(uint32))
+				return true
+			})
+		}
+		if t.BadU3dirty.Swap(false) {
+			bad = bad[:0]
+			t.BadU3streams.Range(func(k, _ any) bool {
+				bad = append(bad, k.(uint32))
+				return true
+			})
+		}
+		emit(good)
+		emit(bad)
+	}
+}
+
+// ---- X5: the cache's keys cannot collide with anybody else's ------------------------------------------------------------------
+
+type x5attrs map[any]any
+
+type x5key int
+
+const x5typedKey x5key = 0
+
+const x5plainKey = 0
+
+func (a x5attrs) GoodX5get() any { return a[x5typedKey] }
+
+func (a x5attrs) BadX5get() any { return a[x5plainKey] }
+
+// ---- V2: what was handed on is not refilled in place -------------------------------------------------------------------------
+
+type v2sender struct {
+	batch []rtcp.Packet
+}
+
+func (s *v2sender) GoodV2tick(w interceptor.RTCPWriter, pkts []rtcp.Packet) {
+	for _, pk := range pkts {
+		_, _ = w.Write([]rtcp.Packet{pk}, nil)
+	}
+	s.batch = append(s.batch[:0], pkts...) // scratch copy that stays here
+}
+
+func (s *v2sender) BadV2tick(w interceptor.RTCPWriter, pkts []rtcp.Packet) {
+	for _, pk := range pkts {
+		s.batch = append(s.batch[:0], pk)
+		_, _ = w.Write(s.batch, nil)
+	}
+}
+
+// ---- N3: a nil pointer is not returned inside a non-nil interface ---------------------------------------------------------
+
+type n3stopper interface{ Stop() }
+
+type n3timer struct{ n int }
+
+func (t *n3timer) Stop() { t.n++ }
+
+func newGoodN3stopper(on bool) n3stopper {
+	if !on {
+		return nil
+	}
+	return &n3timer{}
+}
+
+func newBadN3stopper(on bool) n3stopper {
+	var t *n3timer
+	if on {
+		t = &n3timer{}
+	}
+	return t
+}
+
+// ---- W2: arithmetic is done in the width its result needs ---------------------------------------------------------------
+
+func GoodW2key(ssrc uint16, seq uint16) uint64 { return uint64(uint32(ssrc)<<16) | uint64(seq) }
+
+func BadW2key(ssrc uint32, seq uint16) uint64 { return uint64(ssrc<<16) | uint64(seq) }
+
+func GoodW2room(hi, lo uint64) []byte {
+	if lo > hi {
+		return nil
+	}
+	return make([]byte, 0, hi-lo+1)
+}
+
+func BadW2room(hi, lo uint64) []byte {
+	pending := hi + 1 - lo
+	if pending == 0 {
+		return nil
+	}
+	return make([]byte, 0, pending)
+}
+
+// ---- V3: a view taken before a slice grows is not written through afterwards ------------------------------------------
+
+func GoodV3xor(headerSize int, first, more []byte) []byte {
+	out := make([]byte, headerSize+len(first))
+	hdr := out[:headerSize]
+	hdr[0] ^= first[0] // written before the slice grows
+	copy(out[headerSize:], first)
+	out = append(out, more...)
+	return out
+}
+
+func BadV3xor(headerSize int, parts [][]byte) []byte {
+	out := make([]byte, headerSize+len(parts[0]))
+	hdr := out[:headerSize]
+	for _, pt := range parts {
+		if grow := headerSize + len(pt) - len(out); grow > 0 {
+			out = append(out, make([]byte, grow)...)
+		}
+		hdr[0] ^= pt[0]
+		for i := range pt {
+			out[headerSize+i] ^= pt[i]
+		}
+	}
+	return out
+}
+
+// ---- C9 (deferred): a callback deferred after the Unlock runs before it ------------------------------------------------
+
+type c9d struct {
+	mu     sync.Mutex
+	target int
+	onSet  func(int)
+}
+
+func (c *c9d) GoodC9deferSet(v int) {
+	c.mu.Lock()
+	c.target = v
+	c.mu.Unlock()
+	c.onSet(v)
+}
+
+func (c *c9d) BadC9deferSet(v int) {
+	c.mu.Lock()
+	defer c.mu.Unlock()
+	c.target = v
+	defer c.onSet(v)
 }
